@@ -104,84 +104,93 @@ pub fn minimise(
             }
         }
     }
-    // 1. ddmin over chunks
-    let mut chunk = (ops_of(&best).len() / 2).max(1);
-    loop {
-        let mut progress = false;
-        let mut start = 0usize;
+    // 1+2 are repeated until neither makes progress (argument shrinking often makes more
+    // operations droppable, e.g. once an index has been reduced to 0)
+    for _round in 0..5 {
+        let ops_at_round_start = serde_json::to_string(&best["ops"]).unwrap_or_default();
+        // 1. ddmin over chunks
+        let mut chunk = (ops_of(&best).len() / 2).max(1);
         loop {
-            let ops = ops_of(&best);
-            if start >= ops.len() || over(&t0) {
-                break;
+            let mut progress = false;
+            let mut start = 0usize;
+            loop {
+                let ops = ops_of(&best);
+                if start >= ops.len() || over(&t0) {
+                    break;
+                }
+                let end = (start + chunk).min(ops.len());
+                let mut cand_ops = ops[..start].to_vec();
+                cand_ops.extend_from_slice(&ops[end..]);
+                let cand = with_ops(&best, cand_ops);
+                execs += 1;
+                if fails_same(engine, &cand, class, &mut acc).is_some() {
+                    best = cand;
+                    progress = true;
+                    // keep `start`: the next chunk slid into place
+                } else {
+                    start = end;
+                }
             }
-            let end = (start + chunk).min(ops.len());
-            let mut cand_ops = ops[..start].to_vec();
-            cand_ops.extend_from_slice(&ops[end..]);
-            let cand = with_ops(&best, cand_ops);
-            execs += 1;
-            if fails_same(engine, &cand, class, &mut acc).is_some() {
-                best = cand;
-                progress = true;
-                // keep `start`: the next chunk slid into place
-            } else {
-                start = end;
-            }
-        }
-        if over(&t0) {
-            break;
-        }
-        if chunk == 1 {
-            if !progress {
-                break;
-            }
-        } else {
-            chunk = (chunk / 2).max(1);
-        }
-    }
-    // 2. shrink integer arguments inside ops (towards 0), a few passes
-    for _pass in 0..3 {
-        let mut progress = false;
-        let n_ops = ops_of(&best).len();
-        for oi in 0..n_ops {
             if over(&t0) {
                 break;
             }
-            let ops = ops_of(&best);
-            let mut paths = Vec::new();
-            int_paths(&ops[oi], &mut Vec::new(), &mut paths);
-            for p in paths {
-                let ops = ops_of(&best);
-                let mut op = ops[oi].clone();
-                let cur = match get_mut(&mut op, &p).and_then(|v| v.as_i64()) {
-                    Some(c) => c,
-                    None => continue,
-                };
-                if cur == 0 {
-                    continue;
+            if chunk == 1 {
+                if !progress {
+                    break;
                 }
-                let mut cands = vec![0i64, cur / 2, cur - cur.signum()];
-                cands.dedup();
-                for c in cands {
-                    if c == cur {
+            } else {
+                chunk = (chunk / 2).max(1);
+            }
+        }
+        // 2. shrink integer arguments inside ops (towards 0), a few passes
+        for _pass in 0..3 {
+            let mut progress = false;
+            let n_ops = ops_of(&best).len();
+            for oi in 0..n_ops {
+                if over(&t0) {
+                    break;
+                }
+                let ops = ops_of(&best);
+                let mut paths = Vec::new();
+                int_paths(&ops[oi], &mut Vec::new(), &mut paths);
+                for p in paths {
+                    let ops = ops_of(&best);
+                    let mut op = ops[oi].clone();
+                    let cur = match get_mut(&mut op, &p).and_then(|v| v.as_i64()) {
+                        Some(c) => c,
+                        None => continue,
+                    };
+                    if cur == 0 {
                         continue;
                     }
-                    let mut op2 = ops[oi].clone();
-                    if let Some(slot) = get_mut(&mut op2, &p) {
-                        *slot = Value::from(c);
-                    }
-                    let mut ops2 = ops.clone();
-                    ops2[oi] = op2;
-                    let cand = with_ops(&best, ops2);
-                    execs += 1;
-                    if fails_same(engine, &cand, class, &mut acc).is_some() {
-                        best = cand;
-                        progress = true;
-                        break;
+                    let mut cands = vec![0i64, cur / 2, cur - cur.signum()];
+                    cands.dedup();
+                    for c in cands {
+                        if c == cur {
+                            continue;
+                        }
+                        let mut op2 = ops[oi].clone();
+                        if let Some(slot) = get_mut(&mut op2, &p) {
+                            *slot = Value::from(c);
+                        }
+                        let mut ops2 = ops.clone();
+                        ops2[oi] = op2;
+                        let cand = with_ops(&best, ops2);
+                        execs += 1;
+                        if fails_same(engine, &cand, class, &mut acc).is_some() {
+                            best = cand;
+                            progress = true;
+                            break;
+                        }
                     }
                 }
             }
+            if !progress || over(&t0) {
+                break;
+            }
         }
-        if !progress || over(&t0) {
+
+        if over(&t0) || serde_json::to_string(&best["ops"]).unwrap_or_default() == ops_at_round_start {
             break;
         }
     }
